@@ -285,3 +285,33 @@ impl<V: Canon, F: Canon> Canon for darling::ast::Data<V, F> {
         }
     }
 }
+
+impl Canon for syn::GenericParam {
+    fn canon(&self) -> Sx {
+        tagged("toks", vec![st(toks(self))])
+    }
+}
+impl<T: Canon> Canon for darling::ast::GenericParam<T> {
+    fn canon(&self) -> Sx {
+        match self {
+            darling::ast::GenericParam::Type(t) => tagged("variant", vec![st("GenericParam"), st("Type"), t.canon()]),
+            darling::ast::GenericParam::Lifetime(l) => tagged("variant", vec![st("GenericParam"), st("Lifetime"), tagged("toks", vec![st(toks(l))])]),
+            darling::ast::GenericParam::Const(c) => tagged("variant", vec![st("GenericParam"), st("Const"), tagged("toks", vec![st(toks(c))])]),
+        }
+    }
+}
+impl<P: Canon> Canon for darling::ast::Generics<P> {
+    fn canon(&self) -> Sx {
+        tagged(
+            "rec",
+            vec![
+                st("Generics"),
+                list(vec![st("params"), tagged("list", self.params.iter().map(|p| p.canon()).collect())]),
+                list(vec![st("where_clause"), match &self.where_clause {
+                    Some(w) => tagged("some", vec![tagged("toks", vec![st(toks(w))])]),
+                    None => atom("none"),
+                }]),
+            ],
+        )
+    }
+}
